@@ -311,7 +311,7 @@ theorem RInv.step_noReload {r : GR F} (h : RInv r) (ev : Ev) (hnr : ev.isReload 
       rw [queueOf_of_get hl] at hal
       show b'.queued.map (·.item) = queueOf (Sys.step r.g.sys ev).1 i
       rw [queueOf_of_get g1, ← hb']
-      rcases hc with ⟨e, q, -⟩ | ⟨e, q, -⟩ | ⟨e, q, -⟩
+      rcases hc with ⟨e, q, -⟩ | ⟨e, q, -⟩ | ⟨n, e, q, -⟩
       · rw [e, q, List.map_append, hal, newCopies_items]
       · rw [e, q]; rfl
       · rw [e, q]; rfl
@@ -700,22 +700,23 @@ theorem HInv.step {s0 : Sys F} {pre : List Ev} {r : GR F} (hh : HInv s0 pre r) (
           (stepBins r.g.sys ev r.g.clock r.g.next i b).wire.map (·.bytes) =
             b.wire.map (·.bytes) ++ dataWire ev (Sys.step r.g.sys ev).2 l.core.connId ∧
           ((stepBins r.g.sys ev r.g.clock r.g.next i b).lost = b.lost ∨
-           ((stepBins r.g.sys ev r.g.clock r.g.next i b).lost =
-              b.lost ++ (b.queued ++ newCopies r.g.sys ev r.g.next i).map (fun x => (r.g.clock, x)) ∧
+           (∃ n, (stepBins r.g.sys ev r.g.clock r.g.next i b).lost =
+              b.lost ++ ((b.queued ++ newCopies r.g.sys ev r.g.next i).drop n).map (fun x => (r.g.clock, x)) ∧
             LossCause r.g.sys ev i l l')) := by
       intro i b l hb hl
       obtain ⟨l', g1, g2, hc⟩ := stepBins_cases r.g.sys ev h.inv.nodup hnr r.g.clock r.g.next i l b hl
       have hal := h.aligned i b hb
       rw [queueOf_of_get hl] at hal
       refine ⟨l', by rw [stepG_bins_get, hb]; rfl, g1, g2, ?_, ?_⟩
-      · rcases hc with ⟨e, -, w⟩ | ⟨e, -, w⟩ | ⟨e, -, w, -⟩
+      · rcases hc with ⟨e, -, w⟩ | ⟨e, -, w⟩ | ⟨n, e, -, w, -⟩
         · rw [e, w]; simp
         · rw [e, w, List.map_append, bytes_of_items (b.queued ++ _), List.map_append, hal, newCopies_items]
-        · rw [e, w]; simp
-      · rcases hc with ⟨e, -, -⟩ | ⟨e, -, -⟩ | ⟨e, -, -, hcause⟩
+        · rw [e, w, List.map_append, List.map_take, bytes_of_items (b.queued ++ _), List.map_append, hal,
+            newCopies_items]
+      · rcases hc with ⟨e, -, -⟩ | ⟨e, -, -⟩ | ⟨n, e, -, -, hcause⟩
         · exact .inl (by rw [e])
         · exact .inl (by rw [e])
-        · exact .inr ⟨by rw [e], hcause⟩
+        · exact .inr ⟨n, by rw [e], hcause⟩
     refine ⟨hsys, by show r.g.clock + 1 = _; rw [hh.clock]; simp, fun c => ?_, ?_, ?_⟩
     · rw [hlog, ← hh.wire c]
       show wgone c r.gone ++ wcur c (stepG r.g ev).bins (Sys.step r.g.sys ev).1.links = _
@@ -737,7 +738,7 @@ theorem HInv.step {s0 : Sys F} {pre : List Ev} {r : GR F} (hh : HInv s0 pre r) (
       cases h1; cases h2'
       have hold := hh.lost _ _ ((mem_zip_iff_get _ _ _ _).2 ⟨i, hb, hl⟩)
       rw [q3]
-      rcases q5 with e | ⟨e, hcause⟩
+      rcases q5 with e | ⟨n, e, hcause⟩
       · rw [e] at hkx; exact (hold kx hkx).mono _
       · rw [e] at hkx
         rcases List.mem_append.1 hkx with hkx | hkx
